@@ -376,4 +376,16 @@ theorem getD_mem {l : List Name} {a : Nat} (ha : a < l.length) : l.getD a [] ∈
   rw [List.getD_eq_getElem?_getD, List.getElem?_eq_getElem ha, Option.getD_some]
   exact List.getElem_mem ha
 
+theorem dedup_of_nodup {l : List Name} (h : l.Nodup) : dedup l = l := by
+  induction l with
+  | nil => rfl
+  | cons x xs ih =>
+    rw [List.nodup_cons] at h
+    have : xs.contains x = false := by
+      cases hc : xs.contains x with
+      | false => rfl
+      | true => exact absurd (List.contains_iff_mem.mp hc) h.1
+    simp only [dedup, this, ih h.2]
+    rfl
+
 end Banyan.C16
